@@ -87,6 +87,9 @@ def plan(tier, seed, jobs):
     else:
         for j in range(jobs * 4):
             specs.append({"kind": "random", "n": 5000, "seed": seed, "j": j, "budget_s": 200})
+        # all histories of length 2 over names {a,b} from each of the 41 small tree shapes (strided sample of the enumeration)
+        for j in range(jobs * 2):
+            specs.append({"kind": "enum2", "stride": jobs * 2 * 6, "offset": j * 6 + seed % 6, "budget_s": 300})
     return specs
 
 
@@ -99,6 +102,30 @@ def run_batch_for(prop, spec, probe_p=0.0, justify=None):
                 break
             cfg = make_cfg(r, spec["seed"] * 1000003 + spec["j"] * 10007 + n, probe_p=probe_p)
             run_one(b, cfg, prop, justify)
+    elif spec["kind"] == "enum2":
+        from wdverif.props import c03
+
+        idx = -1
+        for state in c03.shapes():
+            for op1 in c03.enumerate_ops(state):
+                st1 = c03.apply_op(state, op1)
+                if op1[0] == "move_out":
+                    op1 = (op1[0], op1[1], "out/oX")
+                for op2 in c03.enumerate_ops(st1):
+                    if op2[0] == "move_in" and op1[0] == "move_in" and op2[1] == op1[1]:
+                        continue
+                    if op2[0] == "move_out":
+                        op2 = (op2[0], op2[1], "out/oY")
+                    for recursive in (True, False):
+                        idx += 1
+                        if idx % spec["stride"] != spec["offset"]:
+                            continue
+                        if b.expired():
+                            b.count("enum2_cases_skipped_by_budget")
+                            continue
+                        c03.single_case(b, state, op1, recursive, False, idx, prop=prop, script=[op1, op2], single_step=False, justify=justify)
+                        b.count("enum2_cases")
+        b.count("enum2_space", idx + 1)
     elif spec["kind"] == "corpus":
         # regression corpus shared with C02/C03 (witnesses of repaired defects and of seeded changes that need several steps)
         from wdverif.props import c02, c03
